@@ -23,8 +23,8 @@ class NF:
     """normal form of C20: '' == absent for optional strings; an optional object all of whose fields are absent == absent;
     timestamps modulo one millisecond (exact when millisecond-aligned)"""
 
-    def __init__(self, eng, json_route=False):
-        self.eng, self.json = eng, json_route
+    def __init__(self, eng, json_route=False, strict=False):
+        self.eng, self.json, self.strict = eng, json_route, strict
 
     def split(self, ann):
         ann = self.eng.ALIASES.get(ann.strip(), ann.strip())
@@ -41,7 +41,7 @@ class NF:
             return T
         base = self.eng.ALIASES.get(base, base)
         if base == "str":
-            if isinstance(vv, str) or is_sym(vv, "str"):
+            if (isinstance(vv, str) or is_sym(vv, "str")) and not self.strict:
                 return simp(z3.Or(n, z3.Not(truth(st, vv))))
             return n
         cls = self.eng.find_class(base.split("[")[0], module)
@@ -217,3 +217,23 @@ def run(chk):
     options_present(chk, eng)
     chk.engine_stats = dict(eng.stats)
     chk.notes.append("normal form N: optional '' == absent; optional object with all fields absent == absent; JSON route: timestamps within 1 ms, exact on ms-aligned instants")
+
+
+def strict_error_roundtrip(chk, prefix):
+    """ErrorObject.from_dict(e.to_dict()) == e EXACTLY (no normal form): the message, type and data of a recorded error are observable
+    by user code on replay (str(exception)), so even '' vs None must survive the wire"""
+    eng = Engine(hooks=codec_hooks())
+    cls = eng.program.cls("lambda_service.ErrorObject")
+    st = St()
+    o = eng.sym_of_type("ErrorObject", "err", st, cls.module)
+    nf = NF(eng, strict=True)
+    for k1, d, s1 in eng.run(cls.find_method("to_dict"), [o], st=st):
+        for k2, back, s2 in eng.run(cls.find_method("from_dict"), [ClassRef(cls), d], st=s1):
+            chk.paths += 1
+            ok = k1 == "val" and k2 == "val" and isinstance(back, Ref)
+            goal = z3.BoolVal(ok)
+            if ok:
+                so, sb = s2.get(o), s2.get(back)
+                goal = z3.And([nf.equal(s2, so[f], s2, sb[f], ann, owner.module) for f, ann, _, owner in cls.fields()])
+            chk.prove(f"{prefix}.error.wire_exact", s2.pc, goal, desc="a recorded error object survives the wire exactly (message/type/data: '' is not turned into None), so the replayed exception text equals the first one",
+                      describe=describe_factory(o, s2), replay=replay_factory(cls, "dict"))
